@@ -66,6 +66,8 @@ fn name_string(v: &Value) -> String {
 pub struct Exec {
     pub out: Vec<Value>,
     pub sc: String,
+    pub dump: Option<String>,
+    pub ndump: usize,
 }
 
 impl Exec {
@@ -227,6 +229,18 @@ pub fn entry_view(bytes: &[u8], i: usize, pws: &[Vec<u8>], read_content: bool) -
 
 /// observation events after a finished archive: Layout, Open, Entry*
 pub fn observe(ex: &mut Exec, bytes: &[u8], pws: &[Vec<u8>], max_entries: usize) {
+    if let Some(d) = ex.dump.clone() {
+        if bytes.len() <= (4 << 20) {
+            let p = format!("{}/{}-{}.zip", d, ex.sc, ex.ndump);
+            let _ = std::fs::write(&p, bytes);
+            let mut m = Map::new();
+            m.insert("ev".into(), json!("Dumped"));
+            m.insert("path".into(), json!(p));
+            m.insert("pws".into(), json!(pws.iter().map(|p| hexs(p)).collect::<Vec<_>>()));
+            ex.ev(m);
+        }
+        ex.ndump += 1;
+    }
     let lopts = LexOpts { passwords_any: pws.to_vec(), ..Default::default() };
     let l = catch_unwind(AssertUnwindSafe(|| lex(&Mem(bytes), &lopts)));
     let mut m = Map::new();
@@ -317,7 +331,8 @@ fn extra_bytes(recs: &Value) -> (Vec<u8>, Vec<Value>) {
 }
 
 pub fn run_scenario(sc: &Value) -> Vec<Value> {
-    let mut ex = Exec { out: vec![], sc: sc["sc"].as_str().unwrap_or("?").to_string() };
+    let mut ex = Exec { out: vec![], sc: sc["sc"].as_str().unwrap_or("?").to_string(),
+                        dump: sc.get("dump").and_then(|x| x.as_str()).map(|s| s.to_string()), ndump: 0 };
     let mut m = Map::new();
     m.insert("ev".into(), json!("Reset"));
     m.insert("class".into(), sc.get("class").cloned().unwrap_or(json!("writer")));
